@@ -16,7 +16,8 @@ EXPLANATION = ("data_node_contract runs the real ByteNode/WordNode/LongNode/Poin
                "code generator, expression evaluator and emit give the values in order, truncated little-endian.  Expression lists of ARBITRARY length: the loops of generate_db / generate_dw / generate_dl are cut with a per-iteration contract -- for the "
                "arbitrary expression of the list exactly one node is appended, of the directive's width class, evaluating exactly that expression (hence one value per "
                "expression, in list order); the parser side (parse_expression_list_inner, DataNode's copy loop) terminates and consumes the list (C15).  "
-               "Text -> tokens, .ascii and .incbin (file system) are checked by the bounded stand-in.")
+               "Text -> tokens, .ascii and .incbin (file system) are checked by the bounded stand-in."
+               '  The quoted-string helper of .ascii / .text / .include / .incbin / .table is proved on a QUOTED_STRING token of any text: exactly the two delimiters are dropped.')
 TRUSTED = ["vf/specs/le.py"]
 ASSUMPTIONS = ["eval_expression modelled as a function of (expression, environment) (vf/specs/stubs.py); verified separately in C06",
                "Address.__add__ used through its contract (proved in C04)", "struct.pack model",
